@@ -293,6 +293,22 @@ func (w *world) clientWith0(v *signature.Verifier, b *bundle.Bundle, t time.Time
 		return res, vout
 	}
 	// a verifier exists: every vouched subset passed the time checks, so t must be inside every honest signer's window
+	type held struct {
+		url     string
+		payload []byte
+		want    []byte
+	}
+	var heldResults []held
+	defer func() {
+		// history: results handed out earlier must still be intact after the later calls
+		if c.Oracle("C06") {
+			for _, h := range heldResults {
+				if !bytes.Equal(h.payload, h.want) {
+					c.Violation("result-changed-later", "Verifier.VerifyExchange", "the verified payload returned for %q was modified by later VerifyExchange calls (%s)", h.url, what)
+				}
+			}
+		}
+	}()
 	for _, e := range b.Exchanges {
 		var r *signature.VerifyExchangeResult
 		var verr error
@@ -321,6 +337,7 @@ func (w *world) clientWith0(v *signature.Verifier, b *bundle.Bundle, t time.Time
 			}
 		default:
 			res.accepted++
+			heldResults = append(heldResults, held{u, r.VerifiedPayload, append([]byte(nil), r.VerifiedPayload...)})
 			if !c.Oracle("C06") {
 				continue
 			}
